@@ -277,9 +277,9 @@ func TestVerifC07(t *testing.T) {
 		return
 	}
 
-	depth := 5
+	depth := 8
 	if run.Thorough() {
-		depth = 8
+		depth = 14
 	}
 	starts := []uint64{uint64(tempMappingAddr), 0x3000, 0x1000, 0}
 	allComplete := true
